@@ -121,25 +121,20 @@ def run(ctx, model):
                 continue
             outs, f = B.call_method_ident(model, meth, spec)
             n_hole += _judge(ctx, "R-HOLE", f, meth, outs, ref(spec[2]), f"{meth} recv={spec[0]}", set())
-    for meth, ref in B.BINARY_REF.items():
-        for spec in recvs:
-            if spec[1] == "Empty":
-                continue
-            for a in args:
-                if a[1] == "Empty":
-                    continue
-                variants = [((), {})]
-                if meth in ("concat", "either"):
-                    variants = [((), {}), ((False,), {})]
-                for extra, kw in variants:
-                    outs, f = B.call_method_ident(model, meth, spec, [a], extra, kw)
-                    R, A = spec[2], a[2]
-                    r = ref(R, A)
-                    if extra == (False,):
-                        r = {"concat": f"(?:{A})(?:{R})", "either": f"(?:{A})|(?:{R})"}[meth]
-                    n_hole += _judge(ctx, "R-HOLE", f, meth, outs, r,
-                                     f"{meth}{'(on_right=False)' if extra else ''} recv={spec[0]} arg={a[0]}",
-                                     ALLOWED_EXC.get(meth, set()))
+    def hole_item(ctx, item):
+        meth, spec, a, extra = item
+        ref = B.BINARY_REF[meth]
+        outs, f = B.call_method_ident(model, meth, spec, [a], extra, {})
+        R, A = spec[2], a[2]
+        r = ref(R, A)
+        if extra == (False,):
+            r = {"concat": f"(?:{A})(?:{R})", "either": f"(?:{A})|(?:{R})"}[meth]
+        return _judge(ctx, "R-HOLE", f, meth, outs, r,
+                      f"{meth}{'(on_right=False)' if extra else ''} recv={spec[0]} arg={a[0]}",
+                      ALLOWED_EXC.get(meth, set()))
+    items = [(meth, spec, a, extra) for meth in B.BINARY_REF for spec in recvs if spec[1] != "Empty"
+             for a in args if a[1] != "Empty" for extra in (((), (False,)) if meth in ("concat", "either") else ((),))]
+    n_hole += sum(ctx.parallel(items, hole_item))
     # confusable texts: one operand ends (starts) with the other operand's text, but escaped - 's\\\\b' next to '\\b',
     # 's\\$' next to '$': a builder that inspects the text of its operands must not mistake one for the other
     from ..absdom import parse_regex
@@ -151,7 +146,9 @@ def run(ctx, model):
             return True
         except _re.error:
             return False
-    for meth, ref in B.BINARY_REF.items():
+    def confusable_item(ctx, meth):
+        ref = B.BINARY_REF[meth]
+        n = 0
         pairs = []
         for a in args:
             if a[1] not in ("Empty",):
@@ -165,8 +162,8 @@ def run(ctx, model):
                     pairs.append((rcv, (f"Other:{at!r}", "Other", at, True)))
         for spec, a in pairs:
             outs, f = B.call_method_ident(model, meth, spec, [a])
-            n_hole += _judge(ctx, "R-HOLE", f, meth, outs, ref(spec[2], a[2]), f"{meth} recv={spec[0]} arg={a[0]} [confusable texts]",
-                             ALLOWED_EXC.get(meth, set()))
+            n += _judge(ctx, "R-HOLE", f, meth, outs, ref(spec[2], a[2]), f"{meth} recv={spec[0]} arg={a[0]} [confusable texts]",
+                        ALLOWED_EXC.get(meth, set()))
         # bare anchors / shorthands against a literal that ends (starts) with the same characters escaped; types from
         # the interpreted classifier
         mf = model.method(PRE, "Pregex", meth)
@@ -181,8 +178,10 @@ def run(ctx, model):
                         a_ = it.construct(P, [y], {"escape": False})
                         return it.call(FuncRef(mf, r, True), [a_])
                     outs = B.run_thunk(model, thunk, real_classifier=True)
-                    n_hole += _judge(ctx, "R-HOLE", mf, meth, outs, ref(x, y), f"{meth} recv={x!r} arg={y!r} [confusable texts]",
-                                     ALLOWED_EXC.get(meth, set()) | {"NonFixedWidthPatternException", "CannotBeRepeatedException"})
+                    n += _judge(ctx, "R-HOLE", mf, meth, outs, ref(x, y), f"{meth} recv={x!r} arg={y!r} [confusable texts]",
+                                ALLOWED_EXC.get(meth, set()) | {"NonFixedWidthPatternException", "CannotBeRepeatedException"})
+        return n
+    n_hole += sum(ctx.parallel(list(B.BINARY_REF), confusable_item, min_items=2))
     for meth, mk_ref in (("capture", lambda R, x: f"({R})" if x is None else f"(?P<{x}>{R})"),
                          ("group", lambda R, x: f"(?i:{R})" if x else f"(?:{R})")):
         for spec in recvs:
@@ -262,6 +261,27 @@ def _texts(outs):
 
 def _deleg(ctx, model, recvs, args):
     n = 0
+    tasks = []
+
+    import types
+
+    def _snap(fn):
+        """Copy of a closure with its free variables frozen at their current values (the loops below rebind them)."""
+        if not isinstance(fn, types.FunctionType) or fn.__closure__ is None:
+            return fn
+        cells = []
+        for c in fn.__closure__:
+            try:
+                cells.append(types.CellType(c.cell_contents))
+            except ValueError:
+                cells.append(c)
+        g = types.FunctionType(fn.__code__, fn.__globals__, fn.__name__, fn.__defaults__, tuple(cells))
+        g.__kwdefaults__ = fn.__kwdefaults__
+        return g
+
+    def _cmp(ctx_, model_, *a, **kw):      # deferred: all comparisons are evaluated in parallel at the end
+        tasks.append((tuple(_snap(x) for x in a), kw))
+        return 0
     some_r = [r for r in recvs if r[1] != "Empty"]
     some_a = [a for a in args if a[1] != "Empty"]
     # keep the product small but covering every type on each side
@@ -347,10 +367,10 @@ def _deleg(ctx, model, recvs, args):
                 return it.call(FuncRef(concat, x, True), [y])
             n += _cmp(ctx, model, dunder, "concat", df, op_form, method_form,
                       f"{'arg + recv' if swap else 'recv + arg'} recv={r[0]} arg={a[0]}")
-    return n
+    return n + sum(ctx.parallel(tasks, lambda c, t: _cmp_now(c, model, *t[0], **t[1])))
 
 
-def _cmp(ctx, model, spelling, meth, func, form_a, form_b, inp, real=False):
+def _cmp_now(ctx, model, spelling, meth, func, form_a, form_b, inp, real=False):
     a = _texts(B.run_thunk(model, form_a, real_classifier=real))
     b = _texts(B.run_thunk(model, form_b, real_classifier=real))
     ctx.instance("R-DELEG", key=(spelling, inp), sample=f"{inp}: {sorted(set(a.values()))[:3]} vs method {meth}: {sorted(set(b.values()))[:3]}")
